@@ -573,11 +573,24 @@ func ReadElement(r io.Reader, element interface{}) error {
 
 		var sigs []Sig
 		if numSigs > 0 {
-			sigs = make([]Sig, numSigs)
+			// A message body can't exceed MaxMsgBody bytes, so it
+			// can't carry more signatures than fit in it. Cap the
+			// up-front allocation accordingly so a bogus count
+			// can't make us allocate megabytes before the read
+			// fails.
+			sigCap := int(numSigs)
+			if maxSigs := MaxMsgBody / len(Sig{}.bytes); sigCap > maxSigs {
+				sigCap = maxSigs
+			}
+
+			sigs = make([]Sig, 0, sigCap)
 			for i := 0; i < int(numSigs); i++ {
-				if err := ReadElement(r, &sigs[i]); err != nil {
+				var sig Sig
+				if err := ReadElement(r, &sig); err != nil {
 					return err
 				}
+
+				sigs = append(sigs, sig)
 			}
 		}
 		*e = sigs
